@@ -89,7 +89,15 @@ fn executable_request(r: &mut Rng, seq: u8) -> (Vec<u8>, String) {
     let mut b = ra::B::request(f, seq);
     let mut label = format!("f{f}");
     match f {
-        ra::F_WRITE => match r.below(4) {
+        ra::F_WRITE => match r.below(5) {
+            4 => {
+                // a writable device attribute of a private set (defined at start-up): VSTR value
+                let text = format!("w{}", r.u16());
+                let mut o = vec![0u8, 1, 0x00, 7, 7, 1, text.len() as u8];
+                o.extend_from_slice(text.as_bytes());
+                b = b.raw(&o);
+                label += "/device-attribute";
+            }
             0 => {
                 b = b.range8(80, 1, 7, 7, &[0]);
                 label += "/restart-iin";
@@ -177,6 +185,11 @@ async fn scenario(a: &ShardArgs, idx: u64) {
     let mut rr = r.fork();
     let mut sim = OutSim::start_with(cfg.clone(), |db| {
         populate(db, &mut rr, npoints);
+        use crate::app::attr::{AttrProp, AttrSet, OwnedAttrValue, OwnedAttribute};
+        let _ = db.define_attr(
+            AttrProp::writable(),
+            OwnedAttribute::new(AttrSet::new(7), 1, OwnedAttrValue::VisibleString("initial".into())),
+        );
     })
     .await;
     let mut cx = Cx {
